@@ -61,6 +61,13 @@ static void case_nudge(const Args &a, long idx, bool wantDesc, CaseResult &res) 
         if (e[0].shape < 0 && e[1].shape < 0 && e[0].p == e[1].p) continue;
         ends.push_back({e[0], e[1]});
         std::vector<IP> cps; if (sceneHasCheckpoints && R.coin(0.4)) { int k = (int)R.ri(1, 2); for (int q = 0; q < k; q++) { IP p; int t = 0; do { p = IP{R.ri(5, maxx), R.ri(5, maxy)}; } while (!pointFree(S, p, 3) && ++t < 200); if (t < 200) cps.push_back(p); } }
+        // a checkpoint straight out from one end, beyond the half-way line of a z-bend: the route's first (or last) leg carries it and the free middle segment,
+        // which nudging would like to centre, has to stop short of it
+        if (sceneHasCheckpoints && R.coin(0.3)) {
+            auto at = [&](const End &q) { if (q.shape < 0) return q.p; ll x0, y0, x1, y1; bbox(S.shapes[q.shape].poly, x0, y0, x1, y1); return IP{(x0 + x1) / 2, (y0 + y1) / 2}; };
+            IP a0 = at(e[0]), a1 = at(e[1]); if (R.coin()) std::swap(a0, a1); ll dx = a1.x - a0.x, dy = a1.y - a0.y;
+            if (std::llabs(dx) >= 20 && std::llabs(dy) >= 20) { IP p = R.coin() ? IP{a0.x, a0.y + dy * R.ri(55, 95) / 100} : IP{a0.x + dx * R.ri(55, 95) / 100, a0.y}; if (pointFree(S, p, 3)) { if (R.coin(0.7)) cps.clear(); cps.push_back(p); res.count("checkpoints_placed_straight_out_from_an_end"); } }
+        }
         checkpoints.push_back(cps);
     }
     if (ends.size() < 2) { res.inconclusive = "too-few-connectors"; return; }
